@@ -161,6 +161,10 @@ pub fn run(ws: &[&str]) -> String {
         Delay { n: variant.k(), v: Some(Ok(canned()) as Result<HttpResponse, FakeError>) }
     };
 
+    // a decoy request built from the SAME client and sent first: nothing of it may show up in the
+    // request under observation (no state may leak between requests of one client)
+    let decoy_client = |_r: HttpRequest| -> Result<HttpResponse, FakeError> { Ok(canned()) };
+    let decoy_scope = || Scope::new("decoy-scope".to_string());
     macro_rules! finish {
         ($req:expr) => {{
             let mut req = $req;
@@ -194,6 +198,15 @@ pub fn run(ws: &[&str]) -> String {
                 Err(_) => return BAD.into(),
             };
             let client = base_client!(BasicClient).set_token_uri(url);
+            let _ = client
+                .exchange_client_credentials()
+                .add_scope(decoy_scope())
+                .add_extra_param("decoy", "1")
+                .request(&decoy_client);
+            let _ = client
+                .exchange_code(AuthorizationCode::new("decoy-code".to_string()))
+                .set_pkce_verifier(PkceCodeVerifier::new("decoy-verifier".to_string()))
+                .request(&decoy_client);
             match kind {
                 "code" => {
                     let (code, ver, over) = match (untok_str(a1), untok_opt_str(a2), untok_opt_str(a3)) {
@@ -265,6 +278,8 @@ pub fn run(ws: &[&str]) -> String {
                 Err(_) => return BAD.into(),
             };
             let client = base_client!(BasicClient).set_device_authorization_url(url);
+            let _: Result<StandardDeviceAuthorizationResponse, _> =
+                client.exchange_device_code().add_scope(decoy_scope()).add_extra_param("decoy", "1").request(&decoy_client);
             let mut req = apply_plan!(client.exchange_device_code());
             for (k, v) in extras.iter() {
                 req = req.add_extra_param(k.clone(), v.clone());
@@ -281,6 +296,10 @@ pub fn run(ws: &[&str]) -> String {
                 Err(_) => return BAD.into(),
             };
             let client = base_client!(BasicClient).set_introspection_url(url);
+            {
+                let decoy = AccessToken::new("decoy-token".to_string());
+                let _ = client.introspect(&decoy).set_token_type_hint("decoy-hint").add_extra_param("decoy", "1").request(&decoy_client);
+            }
             let (t, h) = match (untok_str(a1), untok_opt_str(a2)) {
                 (Some(t), Some(h)) => (AccessToken::new(t), h),
                 _ => return BAD.into(),
